@@ -208,6 +208,8 @@ def run(repo, rep, tier):
                                 v = a.value
                                 fresh = (isinstance(v, ast.Call) and ((isinstance(v.func, ast.Name) and v.func.id == "dict") or (
                                     isinstance(v.func, ast.Attribute) and v.func.attr == "copy"))) or isinstance(v, (ast.Dict, ast.DictComp))
+                                if not fresh and isinstance(v, ast.Call):
+                                    fresh = returns_fresh_dict(repo, um, ufc, v)
                     elif isinstance(ns, (ast.Dict, ast.DictComp)) or (isinstance(ns, ast.Call) and ast.unparse(ns.func) == "dict"):
                         fresh = True
                     r4.ob(fresh, f"eval namespace `{ast.unparse(ns)}` is a fresh dict per call")
@@ -355,6 +357,32 @@ def free_variable_set(e, nsname):
         i = atom_of(x)
         return frozenset(r for r in regions if r[i])
     return (ev(e), regions), atoms
+
+
+def returns_fresh_dict(repo, um, cls, call):
+    """a helper (static method of the class, or a module-level function) every return of which is a dict created in that call"""
+    fn = call.func
+    target = None
+    if isinstance(fn, ast.Attribute) and isinstance(fn.value, ast.Name):
+        k = um.classes.get(fn.value.id) or (cls if fn.value.id in ("self", "cls") else None)
+        if k is not None:
+            target = k.methods.get(fn.attr)
+    elif isinstance(fn, ast.Name):
+        target = um.functions.get(fn.id)
+    if target is None:
+        return False
+    fresh_locals = set()
+    for st in walk_local_stmt(target.node):
+        if isinstance(st, ast.Assign) and len(st.targets) == 1 and isinstance(st.targets[0], ast.Name):
+            v = st.value
+            if (isinstance(v, ast.Call) and ((isinstance(v.func, ast.Name) and v.func.id == "dict") or (isinstance(v.func, ast.Attribute) and v.func.attr == "copy"))) \
+                    or isinstance(v, (ast.Dict, ast.DictComp)):
+                fresh_locals.add(st.targets[0].id)
+            else:
+                fresh_locals.discard(st.targets[0].id)
+    rets = [st.value for st in walk_local_stmt(target.node) if isinstance(st, ast.Return)]
+    return bool(rets) and all(r is not None and ((isinstance(r, ast.Name) and r.id in fresh_locals) or isinstance(r, (ast.Dict, ast.DictComp)) or (
+        isinstance(r, ast.Call) and isinstance(r.func, ast.Name) and r.func.id == "dict")) for r in rets)
 
 
 KINDS = ("CachedFcn", "UserFcn", "bare")       # a CachedFcn instance, a plain UserFcn instance, anything else
